@@ -243,10 +243,7 @@ def catalogue():
                     e = E.BCHCodeEncoder(mu=mu, delta=delta, information_set=iset)
                 except Exception:
                     continue
-                key = (e.code_dimension, iset)
-                if key in seen:
-                    continue
-                seen.add(key)
+                # every constructible delta is its own object (delta = 2 and 3 give the same code but advertise t = 0 and t = 1)
                 add("bch%d_d%d_%s" % (mu, delta, iset), "bch", {"mu": mu, "delta": delta, "info": iset}, lambda mu=mu, delta=delta, iset=iset: E.BCHCodeEncoder(mu=mu, delta=delta, information_set=iset))
     for delta in (3, 5, 7, 11):
         add("bch6_d%d_left" % delta, "bch", {"mu": 6, "delta": delta, "info": "left"}, lambda delta=delta: E.BCHCodeEncoder(mu=6, delta=delta))
